@@ -514,6 +514,52 @@ def ripemd(ctx):
     return st
 
 
+# ------------------------------------------------------------------------------------------------ BIP352 addresses
+def silent_payment_addresses(ctx):
+    """BIP352 address text: v0 is exactly 66 payload bytes; v1..v30 are read by their first 66 bytes (forward compatibility)
+    and need at least that many; v31 is reserved.  Encoded here with the reference bech32m."""
+    from btclib import silent_payments as sp
+    from models import bip32_ref as B32
+
+    st = Stats()
+    errs = lib_errors()
+    Bs, Bp = B32.pub(11), B32.pub(12)
+    pay66 = B32.ser(Bs) + B32.ser(Bp)
+    for hrp, nettype, network in (("sp", "main", "mainnet"), ("tsp", "test", "testnet")):
+        st.evals += 1
+        exp0 = A.bech32_encode(hrp, [0] + A.convertbits(pay66, 8, 5), 0x2BC830A3)
+        try:
+            got = sp.address_from_keys(Bs, Bp, network)
+        except errs as e:
+            got = "refused " + repr(e)[:40]
+        if got != exp0:
+            st.violation("C06/sp-address/encode", {"hrp": hrp}, got[:40], exp0[:40])
+        for version in range(0, 32):
+            for extra in (-1, 0, 1, 7, 33):
+                payload = pay66 + bytes(range(extra)) if extra >= 0 else pay66[:-1]
+                text = A.bech32_encode(hrp, [version] + A.convertbits(payload, 8, 5), 0x2BC830A3)
+                for spelled in (text, text.upper()):
+                    st.evals += 1
+                    st.nontrivial += 1
+                    if version == 0:
+                        ok = extra == 0
+                    elif version == 31:
+                        ok = False
+                    else:
+                        ok = extra >= 0
+                    try:
+                        r = sp.keys_from_address(spelled)
+                        res = (r[0], r[1], r[2])
+                    except errs:
+                        res = None
+                    case = {"hrp": hrp, "version": version, "payload_len": len(payload), "upper": spelled != text}
+                    if ok and res != (Bs, Bp, nettype):
+                        st.violation("C06/sp-address/valid-address-refused-or-misread", case, str(res)[:60], "the two keys")
+                    if not ok and res is not None:
+                        st.violation("C06/sp-address/invalid-address-accepted", case, "keys", "refused")
+    return st
+
+
 SUBS = [
     ("bech32_matrix", bech32_matrix),
     ("bech32_substitutions", bech32_substitutions),
@@ -523,4 +569,5 @@ SUBS = [
     ("classifier", classifier),
     ("keys_and_prefixes", keys_and_prefixes),
     ("ripemd", ripemd),
+    ("silent_payment_addresses", silent_payment_addresses),
 ]
